@@ -340,15 +340,19 @@ class IntervalTier(textgrid_tier.TextgridTier):
                     newTier.insertEntry(newEntry)
 
         if doShrink is True:
-            diff = end - start
             newEntryList = []
             for interval in newTier.entries:
                 if interval.end <= start:
                     newEntryList.append(interval)
                 elif interval.start >= end:
+                    # Shift relative to the region's start: exact for an entry that
+                    # begins at /end/ and monotone in the timestamp, so rounding cannot
+                    # make shifted entries overlap their left neighbours
                     newEntryList.append(
                         Interval(
-                            interval.start - diff, interval.end - diff, interval.label
+                            start + (interval.start - end),
+                            start + (interval.end - end),
+                            interval.label,
                         )
                     )
 
@@ -373,7 +377,7 @@ class IntervalTier(textgrid_tier.TextgridTier):
                     # so if we've found it, move on
                     break
 
-            newMax = newTier.maxTimestamp - diff
+            newMax = start + (newTier.maxTimestamp - end)
             newTier = newTier.new(entries=newEntryList, maxTimestamp=newMax)
 
         return newTier
@@ -565,7 +569,7 @@ class IntervalTier(textgrid_tier.TextgridTier):
                     newEntryList.append(
                         (
                             start + duration,
-                            start + duration + (interval.end - start),
+                            interval.end + duration,
                             interval.label,
                         )
                     )
